@@ -81,6 +81,18 @@ extern "C" void harness() {
 #if VP_OPT == 2
   { std::vector<int> all; for (int i = 0; i < VP_N; i++) all.push_back(label[i]); st.insert_batch_vertices(all, FV(0)); for (int i = 0; i < VP_N; i++) { present[1 << i] = true; filt[1 << i] = 0; } }   // contiguous_vertices: labels 0..n-1 all present
 #endif
+#ifdef VP_STATE
+  // arbitrary valid start state (instead of the empty tree): a solver-chosen face-closed shape with monotone values, built simplex by simplex
+  // (state construction is not under test here; the operations below are). One inductive step then covers what long histories would reach.
+  for (int m = 1; m < NS; m++) { bool in = __builtin_popcount(m) == 1 ? (VP_OPT == 2 ? true : vp_fork_int(vp_int("in", 0, 1)) != 0) : vp_fork_int(vp_int("in", 0, 1)) != 0; if (!in) continue;
+    for (int s2 = 1; s2 < NS; s2++) if ((s2 & m) == s2 && s2 != m) vp_assume(present[s2]);
+    FV f0 = Opts::store_filtration ? (FV)vp_fork_int(vp_int("f0", 0, VP_FMAX)) : FV(0); for (int s2 = 1; s2 < NS; s2++) if ((s2 & m) == s2 && s2 != m) vp_assume(!(filt[s2] > f0));
+#if VP_OPT == 2
+    if (__builtin_popcount(m) == 1) { filt[m] = 0; continue; }
+#endif
+    st.insert_simplex(word(m), f0); present[m] = true; filt[m] = f0; }
+  observe(st);
+#endif
   for (int step = 0; step < VP_K; step++) {
     int kind = vp_int("kind", 0, 6); int m = vp_int("mask", 1, NS - 1); FV f = Opts::store_filtration ? (FV)vp_int("f", 0, VP_FMAX) : FV(0);
     if (kind == 0) { st.insert_simplex_and_subfaces(word(m), f);
